@@ -8,11 +8,19 @@ import vlib
 
 PROPERTIES = ["C01", "C02", "C03", "C04", "C09"]
 
+W1 = {"stakers": 2, "operators": 2, "assets": ["lst"], "holdops": ["o1"],
+      "scales": ["1", "1000000", "1000003", "700000000000000003"], "blocksPer": 5, "modelPrec": 100}
+W2 = {"stakers": 3, "operators": 3, "assets": ["nat", "lst", "nst"], "holdops": ["o1"],
+      "scales": ["1", "1000003", "700000000000000003"], "blocksPer": 5, "modelPrec": 100}
+
+# generation profiles: (MC module, generation cfg, harness world, behaviours quick / thorough)
 WORLDS = {
-    # name: (MC module/cfg used for generation, harness cfg)
-    "lst2x2": dict(module="MC_Ledger_q.tla", gencfg="MC_Ledger_gen.cfg",
-                   hcfg={"stakers": 2, "operators": 2, "assets": ["lst"], "holdops": ["o1"],
-                         "scales": ["1", "1000000", "1000003", "700000000000000003"], "blocksPer": 5, "modelPrec": 100}),
+    "lst2x2": dict(module="MC_Ledger_q.tla", gencfg="MC_Ledger_gen.cfg", hcfg=W1, nq=40, nt=600),
+    "w2all": dict(module="MC_Ledger_w2.tla", gencfg="MC_Ledger_gen_w2all.cfg", hcfg=W2, nq=25, nt=400),
+    "w2slash": dict(module="MC_Ledger_w2.tla", gencfg="MC_Ledger_gen_w2slash.cfg", hcfg=W2, nq=15, nt=300),
+    "w2slash2": dict(module="MC_Ledger_w2.tla", gencfg="MC_Ledger_gen_w2slash2.cfg", hcfg=W2, nq=15, nt=300),
+    "w2nst": dict(module="MC_Ledger_w2.tla", gencfg="MC_Ledger_gen_w2nst.cfg", hcfg=W2, nq=25, nt=400),
+    "w2nonce": dict(module="MC_Ledger_w2.tla", gencfg="MC_Ledger_gen_w2nonce.cfg", hcfg=W2, nq=10, nt=100),
 }
 
 TAG_UNIVERSE = {
@@ -54,7 +62,6 @@ def _run(tier, seed, harness, d):
             raise vlib.Infra(f"model counterexample in {cfg}: {m['violated']} (lead, not a verdict)\n" + m["out"][-3000:])
         res["mc"].append(m)
     # 2..4 per world: generate, replay on the real code, validate
-    nbeh = 120 if tier == "quick" else 1500
     counts = collections.Counter()
     distinct = set()
     total_beh = total_ev = 0
@@ -62,7 +69,8 @@ def _run(tier, seed, harness, d):
         dg = os.path.join(d, "gen-" + wname)
         os.makedirs(dg)
         vlib.stage_specs(dg, with_override=False)
-        behs = vlib.tlc_simulate(dg, w["module"], w["gencfg"], num=nbeh, depth=40, seed=seed + 1000)
+        nbeh = w["nq"] if tier == "quick" else w["nt"]
+        behs = vlib.tlc_simulate(dg, w["module"], w["gencfg"], num=nbeh, depth=60, seed=seed + 1000)[:nbeh * 2]
         bpath = os.path.join(dg, "beh.ndjson")
         open(bpath, "w").write("\n".join(behs) + "\n")
         # replay + validate in chunks (one TLC run per chunk)
@@ -96,6 +104,9 @@ def _run(tier, seed, harness, d):
                 li = t["l"] - 1
                 b = bidx[li]
                 t["world"] = wname
+                t["pre_h"] = lines[li - 1]["st"]["h"] if li > 0 else None
+                t["history"] = [dict(ev=x["ev"], a=x["a"], ok=x["ok"], h=lines[starts[b] + i]["st"]["h"])
+                                for i, x in enumerate(lines[starts[b] + 1:li + 1])]
                 t["behaviour"] = json.loads(behs[ci + b])
                 t["observed"] = {k: lines[li].get(k) for k in ("ev", "a", "ok", "err", "panic")}
                 t["scale"] = lines[starts[b]].get("scale")
@@ -113,9 +124,50 @@ def _run(tier, seed, harness, d):
     return res
 
 
+def _big(x):
+    return int(x)
+
+
+def _collision_before(t):
+    """an accepted undelegation whose index key (staker, asset, nonce) or (completion height, nonce)
+    equals that of an earlier accepted one in this behaviour (h is the height the event ran at)"""
+    seen = []
+    for x in t["history"]:
+        if x["ev"] == "Undelegate" and x["ok"]:
+            k1 = (x["a"]["s"], x["a"]["a"], x["a"]["nonce"])
+            k2 = (x["h"], x["a"]["nonce"])
+            for (a1, a2) in seen:
+                if a1 == k1 or a2 == k2:
+                    return True
+            seen.append((k1, k2))
+    return False
+
+
+def _same_key_before(t):
+    """an accepted undelegation with the same (operator, height, nonce, tx hash) as an earlier accepted one"""
+    seen = set()
+    for x in t["history"]:
+        if x["ev"] == "Undelegate" and x["ok"]:
+            k = (x["a"]["o"], x["h"], x["a"]["nonce"], x["a"]["txh"])
+            if k in seen:
+                return True
+            seen.add(k)
+    return False
+
+
+MATCHERS = {
+    "identical_undelegation_key": _same_key_before,
+    # C03: secondary index keys collide for equal nonces
+    "equal_nonce_undelegation": _collision_before,
+    # C04: infraction height == current height skips the undelegations started in this block
+    "slash_infr_eq_height": lambda t: t["observed"]["ev"] == "Slash" and t["observed"]["a"]["infr"] == t["pre_h"],
+}
+
+
 def finding_matches(f, t):
     """does tag occurrence t match the known finding f?"""
-    return False
+    m = MATCHERS.get(f.get("match", {}).get("matcher"))
+    return bool(m and m(t))
 
 
 def replay(path):
